@@ -3,6 +3,7 @@ package bcl
 import (
 	"fmt"
 	"io"
+	"math"
 	"strconv"
 	"strings"
 )
@@ -179,6 +180,10 @@ func (vm *vm) run() error {
 				pop()
 
 			case instr == opMUL && isString(peek(1)) && isInt(peek(0)):
+				if b, a := peek(0).(int), peek(1).(string); b < 0 ||
+					len(a) > 0 && b > math.MaxInt/len(a) {
+					return vm.runtimeError("MUL: invalid repeat count %d", b)
+				}
 				b, a := pop().(int), pop().(string)
 				push(strings.Repeat(a, b))
 
